@@ -244,9 +244,72 @@ def r4_lookup(ctx):
     ctx.check(ok, anchor, "fallback-on-ValueError", "the name lookup must be the ValueError fallback of the symbol lookup and return its result", node=fn)
 
 
+MUTATORS = {"pop", "popitem", "clear", "update", "setdefault", "__setitem__", "__delitem__"}
+
+
+def _mutations_of(fn, names):
+    """statements of fn that mutate an object named by one of `names` (a parameter or self attribute)"""
+    out = []
+    for n in ast.walk(fn):
+        if isinstance(n, ast.Call) and isinstance(n.func, ast.Attribute) and n.func.attr in MUTATORS and U(n.func.value) in names:
+            out.append(n)
+        elif isinstance(n, (ast.Assign, ast.AugAssign)):
+            tg = n.targets if isinstance(n, ast.Assign) else [n.target]
+            for t in tg:
+                if isinstance(t, ast.Subscript) and U(t.value) in names:
+                    out.append(n)
+        elif isinstance(n, ast.Delete):
+            for t in n.targets:
+                if isinstance(t, ast.Subscript) and U(t.value) in names:
+                    out.append(n)
+    return out
+
+
+def r7_no_mutation(ctx):
+    """computing a mass must not change the composition it is computed from (the charge entry must survive)"""
+    fn = ctx.func(PERIODIC, "mass_from_composition")
+    arg = fn.args.args[0].arg
+    muts = _mutations_of(fn, {arg})
+    rebinds = [n for n in walk_shallow(fn) if isinstance(n, ast.Assign) and U(n.targets[0]) == arg]
+    copied = any(isinstance(r.value, ast.Call) and (call_name(r.value) in ("dict", "copy.copy", "copy.deepcopy") or (isinstance(r.value.func, ast.Attribute) and r.value.func.attr == "copy")) for r in rebinds)
+    ctx.check(not muts or copied, PERIODIC + ":mass_from_composition", "argument-not-mutated",
+              "mass_from_composition mutates the composition it was given (%s): Substance.mass passes self.composition, so the first read of an ion's mass would strip its charge" % [U(m_)[:60] for m_ in muts],
+              node=muts[0] if muts else fn)
+    for q, names in (("Substance.mass", {"self.composition", "self.data"}), ("Substance.molar_mass", {"self.composition", "self.data"}), ("Substance.charge", {"self.composition"})):
+        f2 = ctx.func(CHEM, q)
+        m2 = _mutations_of(f2, names)
+        ctx.check(not m2, CHEM + ":" + q, "state-not-mutated", "%s mutates the substance (%s)" % (q, [U(x)[:60] for x in m2]), node=m2[0] if m2 else f2)
+    mf = ctx.func(CHEM, "mass_fractions")
+    m3 = _mutations_of(mf, {"substances", "stoichiometries"})
+    ctx.check(not m3, CHEM + ":mass_fractions", "arguments-not-mutated", "mass_fractions mutates its arguments (%s)" % [U(x)[:60] for x in m3], node=m3[0] if m3 else mf)
+
+
 def r5_mass_fractions(ctx):
     fn = ctx.func(CHEM, "mass_fractions")
     anchor = CHEM + ":mass_fractions"
+    # every mass is looked up by the key it is weighted for (never by position in another mapping)
+    reads = [n for n in ast.walk(fn) if isinstance(n, ast.Attribute) and n.attr == "mass"]
+    keyed = []
+    for r in reads:
+        ok_ = isinstance(r.value, ast.Subscript) and U(r.value.value) == "substances"
+        if ok_:
+            kname = U(r.value.slice)
+            # the key must be bound by iterating the stoichiometries
+            bound = False
+            for comp in ast.walk(fn):
+                if isinstance(comp, (ast.ListComp, ast.GeneratorExp, ast.DictComp, ast.SetComp)) and any(x is r for x in ast.walk(comp)):
+                    for g in comp.generators:
+                        if kname in target_names(g.target) and U(g.iter).startswith("stoichiometries"):
+                            bound = True
+                elif isinstance(comp, ast.For) and any(x is r for x in ast.walk(comp)):
+                    if kname in target_names(comp.target) and U(comp.iter).startswith("stoichiometries"):
+                        bound = True
+            ok_ = bound
+        keyed.append(ok_)
+    ctx.check(bool(reads) and all(keyed), anchor, "mass-looked-up-by-key", "every mass in mass_fractions must be substances[k].mass for the key k of the stoichiometry entry it weights; "
+              "pairing substances and stoichiometries by position breaks when the two mappings are ordered differently or one is a superset: %s" % [U(r) for r in reads], node=fn)
+    if not (reads and all(keyed)):
+        return
     tot = None
     for n in walk_shallow(fn):
         if isinstance(n, ast.Assign) and isinstance(n.value, ast.Call) and call_name(n.value) == "sum" and isinstance(n.targets[0], ast.Name):
@@ -303,8 +366,9 @@ RULES = [
     Rule("C14-R2", r2_offsets, 5, "Z<->index offsets (shared with C01-R2)"),
     Rule("C14-R3", r3_mass_formula, 6, "mass = sum v*m[k-1] - v0*m_e; Substance.mass/molar_mass"),
     Rule("C14-R4", r4_lookup, 3, "atomic_number normalises case for both lookups"),
-    Rule("C14-R5", r5_mass_fractions, 4, "mass fractions: numerator term == summand of the total"),
+    Rule("C14-R5", r5_mass_fractions, 5, "mass fractions: numerator term == summand of the total"),
     Rule("C14-R6", r6_periods, 11, "period and group tables", tier="thorough"),
+    Rule("C14-R7", r7_no_mutation, 5, "computing a mass does not mutate the composition / substance / arguments"),
 ]
 
 MUTANTS = [
@@ -329,7 +393,11 @@ MUTANTS.append(Mutant("weight-last-digits-Zn", [(PERIODIC, '"Zinc", 65.38', '"Zi
 
 MUTANTS.append(Mutant("alkali-group-offset", [(PERIODIC, "groups[1] = (1,) + tuple(x + 1 for x in accum_period_lengths[:-1])", "groups[1] = (1,) + tuple(x + 1 for x in accum_period_lengths[1:])")], "C14-R6", "group:1"))
 
+MUTANTS.append(Mutant("mass-pops-charge", [(PERIODIC, "    mass = 0.0\n    for k, v in composition.items():\n        if k == 0:  # electron\n            mass -= v * 5.489e-4\n        else:\n            mass += v * relative_atomic_masses[k - 1]\n    return mass", "    mass = -composition.pop(0, 0) * 5.489e-4\n    for k, v in composition.items():\n        mass += v * relative_atomic_masses[k - 1]\n    return mass")], "C14-R7", "argument-not-mutated"))
+MUTANTS.append(Mutant("fractions-zip-by-position", [(CHEM, "    tot_mass = sum([substances[k].mass * v for k, v in stoichiometries.items()])\n    return {k: substances[k].mass * v / tot_mass for k, v in stoichiometries.items()}", "    masses = [s.mass * v for s, v in zip(substances.values(), stoichiometries.values())]\n    tot_mass = sum(masses)\n    return {k: m / tot_mass for k, m in zip(stoichiometries, masses)}")], "C14-R5", "mass-looked-up-by-key"))
+
 TWINS = [
+    Twin("mass-copy-then-pop", [(PERIODIC, "    mass = 0.0\n    for k, v in composition.items():", "    composition = dict(composition)\n    mass = 0.0\n    for k, v in composition.items():")]),
     Twin("electron-mass-more-digits", [(PERIODIC, "mass -= v * 5.489e-4", "mass -= v * 5.48579909e-4")]),
     Twin("commuted-product", [(PERIODIC, "mass += v * relative_atomic_masses[k - 1]", "mass += relative_atomic_masses[k - 1] * v")]),
     Twin("weight-revision-Ar", [(PERIODIC, '"Argon", 39.95', '"Argon", 39.948')]),
